@@ -37,13 +37,18 @@ package main
 //	            negative c; the capacity is not kept), make([]T, 0) -> [], s[i] -> gef_index s i (Panic outside the
 //	            range), len(s) -> Z.of_nat (length s).  append is accepted only as  X = append(X, e)  on one and the
 //	            same place X (-> X ++ [e]): the result replaces the only access path the translated code has to the
-//	            slice, so the value reading is exact — with ONE EXCEPTION that the translation does not see and
-//	            that is a defect of the Go code: f.column.values starts as the slice the CALLER of NewFactory passed;
-//	            when that slice is empty but has spare capacity (e.g. vals[:0]) the enum is not strict and
-//	            newEnumVal appends INTO THE CALLER'S ARRAY, so two columns built from the same such slice share and
-//	            overwrite each other's value tables (New({A: [x y x], B: [p q p]}, Enums{A: v, B: v}) with
-//	            v := backing[:0] reads A back as p q p).  The value semantics here is that of a declaration slice
-//	            without spare capacity (nil, a literal, a full slice).
+//	            slice, so the value reading is exact.  THE STATEMENT THAT MAKES THIS SOUND for the value table is the
+//	            first one of NewFactory after the length test,
+//	                values = append(make([]string, 0, len(values)), values...)
+//	            (-> do t <- gef_make0 (len values); let v_values := t ++ v_values: a fresh array, the same list):
+//	            f.column.values is then an array no caller can reach, and the appends of newEnumVal replace the only
+//	            access path to it.  Without it the column kept the slice the CALLER passed; for an empty slice with
+//	            spare capacity (vals[:0]) the enum is not strict and newEnumVal appended INTO THE CALLER'S ARRAY, so
+//	            that two columns declared with one such slice overwrote each other's value tables (finding F27:
+//	            New({A: [x y x], B: [p q p]}, Enums{A: v, B: v}) with v := backing[:0] read A back as p q p).  The
+//	            translator therefore REJECTS a slice argument of a function that is stored into a struct (composite
+//	            literal field or x.f = arg) without having been replaced by such a copy first: reverting the repair
+//	            is a translator problem, not a silently wrong value reading.
 //	maps        map[string]V -> gef_map V = association list (key, value), keys unique, insertion order (not
 //	            observable: the translated code never ranges over a map).  make(map[..]..., n) -> [] (the size
 //	            hint is not observable), m[k] = v -> gef_map_set m k v (replaces the binding or appends one),
@@ -68,7 +73,8 @@ package main
 //	            followed by the new receiver for a method that stores into its receiver.  There is NO fuel: every
 //	            loop is a range loop over a slice evaluated once, or a counting loop  for i := a; i < b; i++  whose
 //	            body stores neither into i nor into the variables of b (-> a loop over gef_count a b).
-//	statements  x := e; a, b := f(..); v, ok := m[k]; v, ok := x.(T); x = e; x.f.g = e; m[k] = e; x++; x.m(..)
+//	statements  x := e; a, b := f(..); v, ok := m[k]; v, ok := x.(T); x = e; x.f.g = e; m[k] = e; x++; x.m(..);
+//	            X = append(make([]T, 0, c), Y...) (the fresh copy above)
 //	calls       a call of a translated function is  do t <- gef_f ..;  a call of a method that stores into its
 //	            receiver may only stand as a statement, as the only right-hand side of an assignment / if-init or
 //	            as the only returned value.
@@ -632,6 +638,7 @@ type gefTr struct {
 	ntmp   int
 	loops  []string
 	nloops int
+	fresh  map[string]bool // slice arguments that were replaced by a fresh copy: X = append(make([]T, 0, c), X...)
 }
 
 func (t *gefTr) fail(n ast.Node, format string, a ...interface{}) {
@@ -893,6 +900,21 @@ func (t *gefTr) expr(e ast.Expr, c gefCtx, pre *[]string) (string, *gefT) {
 	return "tt", gefBad
 }
 
+// sharedArgument rejects a slice ARGUMENT of the function stored into a struct as it is: its array would stay
+// shared with the caller, and the value reading of the appends made to the field later on would be wrong (the
+// defect repaired in NewFactory).  The argument must have been replaced by a fresh copy first.
+func (t *gefTr) sharedArgument(e ast.Expr, ty *gefT) {
+	id, ok := e.(*ast.Ident)
+	if !ok || ty.k != "slice" {
+		return
+	}
+	for _, p := range t.f.params {
+		if p.name == id.Name && !t.fresh[id.Name] {
+			t.fail(e, "the slice argument %s is stored into a struct without a copy: its array stays shared with the caller and later appends to the field would write into it (expected %s = append(make([]T, 0, len(%s)), %s...) first)", id.Name, id.Name, id.Name, id.Name)
+		}
+	}
+}
+
 func (t *gefTr) composite(cl *ast.CompositeLit, c gefCtx, pre *[]string) (string, *gefT) {
 	ty := t.resolve(cl.Type)
 	if ty.k == "string" && t.src(cl.Type) == "[]byte" {
@@ -932,6 +954,7 @@ func (t *gefTr) composite(cl *ast.CompositeLit, c gefCtx, pre *[]string) (string
 			t.fail(el, "field %s given twice", id.Name)
 		}
 		s, vty := t.expr(kv.Value, c, pre)
+		t.sharedArgument(kv.Value, vty)
 		vals[id.Name] = t.coerce(kv.Value, s, vty, fty)
 	}
 	if len(cl.Elts) == 0 {
@@ -1655,6 +1678,25 @@ func (t *gefTr) simple(st ast.Stmt, c *gefCtx) ([]string, bool) {
 			case *ast.CallExpr:
 				if id, ok := r.Fun.(*ast.Ident); ok && id.Name == "append" {
 					if _, isVar := c.lookup("append"); !isVar {
+						if len(x.Lhs) == 1 && len(r.Args) == 2 && x.Tok == token.ASSIGN && r.Ellipsis.IsValid() {
+							// X = append(make([]T, 0, c), Y...): a fresh array holding the elements of Y
+							if mk, ok := r.Args[0].(*ast.CallExpr); ok && t.src(mk.Fun) == "make" && len(mk.Args) == 3 && t.src(mk.Args[1]) == "0" {
+								if id, isId := x.Lhs[0].(*ast.Ident); isId {
+									m, tm := t.expr(mk, *c, &pre)
+									y, ty := t.expr(r.Args[1], *c, &pre)
+									if tm.k != "slice" || !tm.same(ty) {
+										t.fail(st, "copy of a slice outside the scheme: %s", t.src(st))
+										return pre, true
+									}
+									t.store(x.Lhs[0], fmt.Sprintf("(%s ++ %s)", m, y), tm, c, &pre)
+									if t.fresh == nil {
+										t.fresh = map[string]bool{}
+									}
+									t.fresh[id.Name] = true
+									return pre, true
+								}
+							}
+						}
 						if len(x.Lhs) != 1 || len(r.Args) != 2 || x.Tok != token.ASSIGN || t.src(x.Lhs[0]) != t.src(r.Args[0]) {
 							t.fail(st, "append outside the form X = append(X, e)")
 							return pre, true
@@ -1737,6 +1779,9 @@ func (t *gefTr) simple(st ast.Stmt, c *gefCtx) ([]string, bool) {
 			vals, tys = append(vals, s), append(tys, ty)
 		}
 		for i := range vals {
+			if _, isSel := x.Lhs[i].(*ast.SelectorExpr); isSel {
+				t.sharedArgument(x.Rhs[i], tys[i])
+			}
 			t.bind(x, x.Lhs[i], vals[i], tys[i], c, &pre)
 		}
 		return pre, true
